@@ -18,3 +18,5 @@ run D4  -R 23dde1c C02 --only 'mir_x224'
 run D9  -R 09492d0 C07 --only 'mir'
 run D10 -R 9c37d38 C07 --only 'panic'
 run D15 -R 2ae30bd C04 --only 'mir'
+run D11b -R 88c3ed4 C08 --only 'mir_rle16|unknown_a1'
+run D11c -R 798d79a C08 --only 'mega_dithered'
